@@ -23,6 +23,7 @@ fn pool(r: &mut Rng, n: usize) -> Vec<JsonShape> {
     let mut p = small_shapes();
     p.extend(medium_shapes());
     p.extend(dict_shapes());
+    p.extend(related_unions());
     for i in 0..n {
         p.push(rand_shape(r, 1 + i % 4));
     }
@@ -65,7 +66,7 @@ fn pairs(r: &mut Rng, sz: &Sizes) -> Vec<(JsonShape, JsonShape)> {
             }
         }
     }
-    for d in dict_shapes() {
+    for d in dict_shapes().into_iter().chain(related_unions()) {
         let o = json_shape::verif::as_optional(d.clone());
         out.push((d.clone(), d.clone()));
         out.push((d.clone(), o.clone()));
@@ -336,6 +337,21 @@ pub fn dict_docs() -> Vec<J> {
         t.push(format!("[{{\"id\":1}},{{{q}:[1,\"x\"],\"id\":2}}]"));
         t.push(format!("{{{q}:{{{q}:[{q}]}}}}"));
         t.push(format!("[{q},{q}]"));
+    }
+    // short literals (separators, brackets, quotes) JOINING ordinary names: a name that looks like two names glued by
+    // whatever the code itself uses as a separator, beside objects that have exactly those two names
+    for w in crate::dict::words() {
+        if w.chars().count() > 3 {
+            continue;
+        }
+        let j = serde_json::to_string(&format!("a{w}b")).unwrap();
+        let l = serde_json::to_string(&format!("a{w}")).unwrap();
+        let r2 = serde_json::to_string(&format!("{w}b")).unwrap();
+        t.push(format!("[{{\"a\":1,\"b\":2}},{{{j}:3}}]"));
+        t.push(format!("[{{{j}:3}},{{\"a\":1,\"b\":2}}]"));
+        t.push(format!("[{{\"a\":1}},{{{l}:2}},{{{r2}:3,\"b\":4}}]"));
+        t.push(format!("{{{j}:1,\"a\":2,\"b\":3}}"));
+        t.push(format!("[{{\"a\":1,\"b\":2}},{{\"a\":1,\"b\":2}},{{{j}:3}}]"));
     }
     let mut out: Vec<J> = t.iter().filter_map(|x| serde_json::from_str::<serde_json::Value>(x).ok().map(|_| parse_j(x))).collect();
     out.extend(width_docs_at(&crate::dict::sizes(1200)));
@@ -1060,7 +1076,7 @@ pub fn c12(r: &mut Rng, sz: &Sizes, out: &mut Vec<String>) {
     for cl in 0..3 {
         for cr in 0..3 {
             for (ol, or) in [(false, false), (true, true), (false, true)] {
-                for wrap in 0..3 {
+                for wrap in 0..4 {
                     for fit in [true, false] {
                         for depth in [4usize, 8, 12, 16, 20] {
                             let leaf_l = JsonShape::Bool { optional: false };
@@ -2017,6 +2033,16 @@ pub fn c16(r: &mut Rng, sz: &Sizes, out: &mut Vec<String>) {
     out.push(format!("p_c16\t{}\t{}", crate::wire::hex(b"bad"), crate::wire::hex(b"{\"a\":")));
     out.push(format!("p_c16\t{}\t{}\t{}", crate::wire::hex(b"bad2"), crate::wire::hex(b"1"), crate::wire::hex(b"tru")));
     out.push(format!("p_c16\t{}", crate::wire::hex(b"empty")));
+    // sources that are ALMOST JSON (a byte order mark, a non-JSON blank, a NUL, a comment before / after a valid
+    // document): compile_json must refuse what the library refuses, alone and next to valid sources
+    for d in ["{\"a\": 1, \"b\": [true, null]}", "[1,2]", "\"s\""] {
+        for pad in ["\u{feff}", "\u{a0}", "\u{c}", "\u{b}", "\u{85}", "\0", "//c\n", "/*c*/", "\u{2028}"] {
+            for t in [format!("{pad}{d}"), format!("{d}{pad}")] {
+                out.push(format!("p_c16\t{}\t{}", crate::wire::hex(b"almost"), crate::wire::hex(t.as_bytes())));
+                out.push(format!("p_c16\t{}\t{}\t{}", crate::wire::hex(b"almost2"), crate::wire::hex(d.as_bytes()), crate::wire::hex(t.as_bytes())));
+            }
+        }
+    }
     // histories of requests into one directory: repeated names with different source lists, failing
     // requests in between (unreadable path, invalid text, empty list), several names, dotted names
     let hx = |t: &str| crate::wire::hex(t.as_bytes());
